@@ -207,6 +207,42 @@ fn cli_case(full: &CliFull, bytes: &[u8], cut: usize, args: &[&str], stdin: bool
     compare_msgs(&full.msgs, &msgs, &ci, "cli")
 }
 
+/// As `cli_case`, for runs with a filter: rows / findings whose offset lies before the first incomplete packet must be
+/// exactly those of the filtered untruncated run.
+fn cli_case_filtered(full: &CliFull, bytes: &[u8], cut: usize, args: &[&str], stdin: bool) -> Option<(String, String)> {
+    let t = &bytes[..cut];
+    let ci = cut_info(t);
+    let scratch = Scratch::new("c18e");
+    let mut a: Vec<String> = Vec::new();
+    if !stdin {
+        a.push(scratch.file("in.raw", t).display().to_string());
+    }
+    a.extend(args.iter().map(|s| s.to_string()));
+    let mut run = Run::new(&a).cwd(&scratch.path);
+    if stdin {
+        run = run.stdin(t);
+    }
+    let res = run.run();
+    if res.crashed() {
+        let site = res.stderr_str().lines().find(|l| l.contains("panicked at")).map(|l| l.to_string()).unwrap_or_default();
+        return Some((format!("cli-abnormal-exit:{}", if res.timed_out { "timeout" } else { "signal" }), format!("signal {:?} timed_out {} {}", res.signal, res.timed_out, site)));
+    }
+    if !matches!(res.status, Some(0) | Some(1)) {
+        return Some(("cli-exit-status".into(), format!("exit {:?}", res.status)));
+    }
+    if args[0] == "view" {
+        let rows = parse_rdh_rows(&strip_ansi(&res.stdout_str()));
+        let got: Vec<&(u64, Vec<String>)> = rows.iter().filter(|r| r.0 < ci.incomplete_at).collect();
+        let want: Vec<&(u64, Vec<String>)> = full.rows.iter().filter(|r| r.0 < ci.incomplete_at).collect();
+        if got != want {
+            return Some(("view-rows-differ".into(), format!("{} rows for selected packets complete before the cut, the untruncated filtered run has {}", got.len(), want.len())));
+        }
+        return None;
+    }
+    let msgs = split_cli_errors(&res.stderr_str());
+    compare_msgs(&full.msgs, &msgs, &ci, "cli")
+}
+
 fn line_offset(l: &str) -> Option<u64> {
     let (a, _) = l.split_once(':')?;
     let a = a.trim();
@@ -432,6 +468,66 @@ pub fn run(tier: Tier) -> i32 {
             }
         }
     }
+    // (e) truncation together with a link filter: the cut may fall inside a packet the filter skips (on a pipe the
+    //     skipped payload is read and discarded, in a file it is seeked over). Oracle: the rows / findings for the
+    //     selected packets complete before the cut are those of the filtered, untruncated run.
+    {
+        let a = LinkCfg::ib(0, 3);
+        let mut b = LinkCfg::ol(1, 9, false);
+        b.data_format = 0;
+        let sa = grammar::basic_hbf_shapes(&a);
+        let sb = grammar::basic_hbf_shapes(&b);
+        let mut la = grammar::render_link(&a, &[sa[1].1.clone(), sa[6].1.clone()]);
+        let mut lb = grammar::render_link(&b, &[sb[1].1.clone(), sb[4].1.clone()]);
+        la[0].packet.rdh.rdh1_reserved = 1;
+        lb[0].packet.rdh.rdh3_reserved = 0x0101;
+        if la.len() > 2 {
+            la[2].packet.rdh.rdh1_reserved = 1;
+        }
+        if lb.len() > 1 {
+            lb[1].packet.rdh.rdh1_reserved = 1;
+        }
+        let bytes = grammar::round_robin(&[la, lb]).bytes();
+        let cuts: Vec<usize> = (0..=bytes.len()).collect();
+        let mut filtered_inside_skipped = 0u64;
+        let (walked_all, _) = stream::walk(&bytes);
+        let fee_b = format!("{}", b.fee_id);
+        let filters: Vec<Vec<String>> = vec![
+            vec!["-f".into(), "0".into()],
+            vec!["-f".into(), "1".into()],
+            vec!["-F".into(), fee_b.clone()],
+        ];
+        for filter in &filters {
+            for mode in [vec!["view", "rdh", "-d"], vec!["check", "sanity"], vec!["check", "all", "its"]] {
+                if !tier.is_thorough() && mode[0] == "check" && mode[1] == "all" && filter[0] == "-F" {
+                    continue;
+                }
+                let mut args: Vec<&str> = mode.clone();
+                args.extend(filter.iter().map(|s| s.as_str()));
+                let full = cli_full(&bytes, &args);
+                for stdin in [false, true] {
+                    let res = par_map(&cuts, |_, c| cli_case_filtered(&full, &bytes, *c, &args, stdin));
+                    for (c, r) in cuts.iter().zip(res.iter()) {
+                        evaluations += 1;
+                        // the cut lies inside a packet the filter skips?
+                        if stdin && mode[0] == "view" {
+                            if walked_all.iter().any(|w| (w.offset as usize) < *c && *c < w.payload.1) {
+                                filtered_inside_skipped += 1;
+                            }
+                        }
+                        if let Some((sig, d)) = r {
+                            rep.violation(Violation {
+                                signature: format!("{sig}:filtered"),
+                                description: format!("{d} [two interleaved links with RDH faults, cut at byte {c} of {}, `{}` {}]", bytes.len(), args.join(" "), if stdin { "stdin" } else { "file" }),
+                                replay: json!({"kind": "cli-filtered", "args": args, "stdin": stdin, "cut": c, "full_hex": hex(&bytes)}),
+                            });
+                        }
+                    }
+                }
+            }
+        }
+        rep.cov("filtered_cut_cases_inside_a_packet", json!(filtered_inside_skipped));
+    }
     rep.cov("evaluations", json!(evaluations));
     rep.cov("distinct_nontrivial", json!(inside));
     rep.cov("exhaustive", json!(true));
@@ -456,7 +552,11 @@ pub fn replay(v: &serde_json::Value) -> i32 {
         let args: Vec<String> = r["args"].as_array().unwrap().iter().map(|x| x.as_str().unwrap().to_string()).collect();
         let a: Vec<&str> = args.iter().map(|s| s.as_str()).collect();
         let full = cli_full(&bytes, &a);
-        cli_case(&full, &bytes, cut, &a, r["stdin"].as_bool().unwrap())
+        if r["kind"] == "cli-filtered" {
+            cli_case_filtered(&full, &bytes, cut, &a, r["stdin"].as_bool().unwrap())
+        } else {
+            cli_case(&full, &bytes, cut, &a, r["stdin"].as_bool().unwrap())
+        }
     };
     match res {
         Some((s, d)) => {
